@@ -21,8 +21,8 @@ ROOT = os.path.dirname(os.path.dirname(os.path.dirname(os.path.abspath(__file__)
 
 def sizes(ctx):
     if ctx.quick:
-        return dict(core=450, excon=200, nola=50, wide=40, retry=150, flags=120)
-    return dict(core=15000, excon=6000, nola=800, wide=800, retry=3000, flags=3000)
+        return dict(core=350, excon=150, nola=40, wide=30, retry=120, flags=100, fusion=100)
+    return dict(core=15000, excon=6000, nola=800, wide=800, retry=3000, flags=3000, fusion=3000)
 
 def limited(rng, base):
     return dict(base, mvpn=rng.choice([1, 2, 3, 7]), avpm=rng.choice([0, 1, 2]),
@@ -54,6 +54,12 @@ def gen_cases(ctx):
         sect, w2f = rng.choice([(True, False), (False, True), (True, True)])
         c['runs'] = [limited(rng, CG.gen_run(rng, rule='trypsin', exc_on=False, sect=sect, w2f=w2f))]
         c['stream'] = 'flags'
+        cases.append(c)
+    # fusion transcripts (Model/SpecFusion.v): donor[:bp] ++ acceptor[bp':], exonic breakpoints
+    for i in range(n.get('fusion', 0)):
+        c = CG.gen_fusion_case(rng)
+        c['runs'] = [limited(rng, CG.gen_run(rng, rule='trypsin' if rng.random() < 0.7 else la_other[i % len(la_other)], exc_on=False))]
+        c['stream'] = 'fusion'
         cases.append(c)
     # retry clause: the first n attempts of every transcript are made to time out (inside the worker only)
     for i in range(n.get('retry', 0)):
@@ -98,6 +104,8 @@ def judge(evs, violations, stats):
         if ev.exc:
             if st == 'retry' and ev.run.get('force_timeouts') is not None and ev.exc['__exc__'] == 'ValueError':
                 pass                                 # judged against the model of caller_reducer in judge_retry
+            elif CK.is_fusion_crash(ev):
+                stats['fusion_crash'] += 1           # nothing is emitted: C01 owns the finding
             else:
                 violations.append({'what': 'callVariant aborted with %s (%s)' % (ev.exc['__exc__'], ev.exc.get('msg', '')[:120]),
                                    'replay_obj': CK.replay_obj(ev, 'crash'), 'no_input': False})
